@@ -21,8 +21,8 @@ EXC_NOTE = ("Trusted base: TLC 1.8, spec/ExcCodec.tla, harness/exc_driver.py (fi
 CHECKS = {
  "C01": ("Receiver.tla model-checked (all interleavings of prefetcher/runner/look-ahead fetch/callbacks, every stop instant) + clauses C01_* of RxProps evaluated by TLC on every prefix of traces recorded from the real Receiver.listen(); conformance of those traces to the model", "5/C01"),
  "C02": ("pipeline model (one action per real suspension) model-checked for 3 ack types x sync/async ack x outcomes x backend failure; clauses C02_* judged on every prefix (= crash point) of real traces", "5/C02"),
- "C03": ("slot conservation law as model invariant + C03_Limit/Serial on every event and saturation probes after fault histories on the real code", "5/C03"),
- "C04": ("counting invariants (queue <= P+1, live <= A) model-checked; C04_Bound evaluated after every event of saturation/burst/idle-poll runs of the real code", "5/C04"),
+ "C03": ("slot conservation law as model invariant + C03_Limit/Serial on every event and saturation probes after fault histories on the real code; for ALL A >= 1, P, N: inductive invariant of the statement-level flow model FlowAbs.tla discharged by Apalache (live <= A), real traces with A <= 9 validated as FlowAbs behaviours by TLC (TraceFlow.tla)", "5/C03, 10.7"),
+ "C04": ("counting invariants (queue <= P+1, live <= A) model-checked; C04_Bound evaluated after every event of saturation/burst/idle-poll runs of the real code; for ALL A >= 1, P, N: inductive invariant of FlowAbs.tla discharged by Apalache (taken - finished <= A + P + 1, tight), real traces with A <= 9, P <= 7 validated as FlowAbs behaviours by TLC (TraceFlow.tla)", "5/C04, 10.7"),
  "C05": ("timed model (poll 3 ticks, drain timeout) model-checked with stop at every instant; clauses C05_* on real traces with stop inserted at every position; KF-C05-1 classified by signature", "5/C05"),
  "C06": ("shared dependency-context dict modelled explicitly (sub-context capture time); C06_OwnContext/ResultBinding on real overlapping executions with un-cached/nested/suspending dependencies", "5/C06"),
  "C07": ("outcome x timeout x backend-failure pipeline model; C07_* clauses compare the stored result with the scripted outcome on real traces", "5/C07"),
@@ -65,7 +65,8 @@ def main():
             "engine": "tlc-model+trace",
             "level_claimed": {"category": "model_checking", "text": text, "design_ref": ref},
             "level_note": RX_NOTE if pid in ("C01","C02","C03","C04","C05","C06","C07","C10","C12") else (CALC_NOTE if pid in ("C13","C14") else (SCH_NOTE if pid in ("C15","C16") else (PM_NOTE if pid in ("C17","C18") else (PAR_NOTE if pid == "C08" else (EXC_NOTE if pid in ("C19","C20") else CL_NOTE))))),
-            "technique": "explicit TLA+ spec checked by TLC; verdict = spec property clauses evaluated by TLC on traces recorded from the real code; trace conformance to the spec",
+            "technique": "explicit TLA+ spec checked by TLC; verdict = spec property clauses evaluated by TLC on traces recorded from the real code; trace conformance to the spec"
+                         + ("; parametric inductive invariant of the TLA+ flow model checked with Apalache" if pid in ("C03", "C04") else ""),
         })
     man = {
         "version": 1,
